@@ -4,5 +4,5 @@ From Coq Require Import Extraction ExtrOcamlBasic NArith ZArith.
 From V Require Import C12.Model C13.Model.
 Extraction "c13_model.ml" lifetime recover crash_at resume_height verdict flat load
   flush_before_visible no_conflict consecutive_from commits_in logged_first init_state
-  good_run life_disc replay_covers at_or_above
+  good_run life_disc replay_covers at_or_above live_good
   N.of_nat Z.of_N.
